@@ -2559,6 +2559,9 @@ class x86_mn(x86_mn_base):
                         # mov to/from CRn/DRn: ModRM.mod is ignored, r/m
                         # is always a general register
                         c |= 0xC0
+                    if m.modifs[sg] and ((c>>3)&7) > 5:
+                        # segment register numbers 6 and 7 do not exist
+                        return None
                     re, modr = x86mndb.get_afs(bin, c, self.admode)
                     mafs = dict(x86mndb.get_afs_re(re+reg_cat))
                     if m.modifs[w8]:
